@@ -30,6 +30,7 @@ import (
 	fwface "github.com/named-data/ndnd/fw/face"
 	enc "github.com/named-data/ndnd/std/encoding"
 	sface "github.com/named-data/ndnd/std/engine/face"
+	ndnlog "github.com/named-data/ndnd/std/log"
 	"verif/mc/enum"
 	"verif/mc/report"
 )
@@ -441,7 +442,16 @@ func main() {
 		if max != realMax {
 			report.Fatal("child build: MaxNDNPacketSize is %d, expected %d", max, realMax)
 		}
-		st := realPass(os.Getenv("VERIF_TIER") == "thorough")
+		thorough := os.Getenv("VERIF_TIER") == "thorough"
+		st := realPass(thorough)
+		// the real stream transports (their callbacks, MTU changed at run time) on real sockets
+		ndnlog.SetLevel(ndnlog.FatalLevel)
+		cov, runs, classes, ok := transportPass(thorough, max)
+		st.Parts["stream_transports"] = cov
+		st.Runs += runs
+		st.Classes += classes
+		st.Complete = st.Complete && ok
+		st.Samples = append(st.Samples, fmt.Sprintf("real: UnicastTCPTransport.runReceive and UnixStreamTransport.runReceive on real sockets with a recording link service: %d runs (streams x MTU histories x chunkings of the peer's writes), MTU default %d and lowered at run time to 1500 / 128", runs, max))
 		writeChild(st)
 		return
 	}
@@ -518,6 +528,7 @@ func main() {
 		"Environment answers of the scripted reader: a short read may be plain, followed by a (0, nil) read, returned TOGETHER with an error, or followed by a read that returns only that error. The error is a connected UDP socket's 'read udp: recvfrom: connection refused' and readTlvStream is then given the predicate that unicast-udp-transport.go and multicast-udp-transport.go pass (strings.Contains(err.Error(), \"connection refused\"); the check verifies that both files still contain it); without such an answer readTlvStream gets a nil predicate, as the TCP and Unix transports call it. The error-with-data answer is never the last read of a stream (readTlvStream parses only after an error-free read, and sockets that report this error never report EOF).",
 		"C11.send: std/engine/face is rebuilt with sync and sync/atomic redirected to the cooperative scheduler (mc/sched); the scheduling points are every mutex/atomic operation of StreamFace.Send and every Write of the fake connection; all interleavings of 2-3 sender threads (wires of 1-3 segments) with <= 2 (thorough 3) preemptions are executed and the written bytes must split into exactly the blocks sent. Unsynchronised accesses are invisible to a cooperative scheduler: the same bodies also run free under the Go race detector (send_race_pass, sampled, auxiliary).",
 		"C11.reopen: same scheduler, lifecycle scenario on the real StreamFace: the first session's Run loop (its onPkt callback yields), the application calling Close() and then the real Open() at once (retrying once the old loop has ended if Open refuses), and the goroutine Open starts. Open dials a Unix socket the harness listens on; the dialled connection is replaced by a scripted one through a hook before any other thread can run. Once Open returned nil every block of the new stream must be delivered exactly once in order. A refusal of the immediate Open ('face is already running') is accepted.",
+		"Stream transports pass (real-constant build): UnicastTCPTransport and UnixStreamTransport are built by their own constructors on real connected loopback/Unix sockets (their conn fields are concrete socket types), get a recording link service through a hook, and their own runReceive is run until the peer closes; the MTU of the face is left at its default or changed with LinkService.SetMTU (before the loop starts / from inside the hand-over of block k, i.e. between two blocks as the management thread may do). The MTU limits what the forwarder sends; the oracle for received blocks is C11.seq/C11.term unchanged. The peer's writes are gated on the kernel's queue counters so that a Read returns at most one chunk; the verdict does not depend on the chunk boundaries observed. C11.term for this pass is 'no progress for 60 s on a local socket'.",
 		"A Read with an empty buffer is answered (0, nil) as sockets do; more than 4 of those, or more Read calls than bytes+deviations+8, is reported as non-termination (step counter, no wall clock).",
 	})
 }
